@@ -271,23 +271,34 @@ def check(repo, tier):
                 run.oblige('D4', (entry, scen), good, sample={'rule': 'D4', 'scenario': scen, 'axes': str(res.legs)} if d == 3 and role == 'op' else None)
                 if not good:
                     run.add(F(entry, 'D4 axis order of full()', f'{scen}: the axes of the result carry {res.legs}, expected rows of sites 0..{d - 1} then columns of sites 0..{d - 1}'))
-            scen = f'matricize(order={d}, {role})'
-            entry = f'{TTM}.TT.matricize'
+            # mixed unit modes: one site at a time has a column (resp. row) dimension of size one while the others are general
+            unit_variants = [None] + ([(side, k) for side in ('col', 'row') for k in range(d)] if role == 'op' and d >= 2 else [])
+            for uv in unit_variants:
+                scen = f'matricize(order={d}, {role}' + (f', {uv[0]}_dims[{uv[1]}] = 1' if uv else '') + ')'
+                entry = f'{TTM}.TT.matricize'
 
-            def body(sc):
-                a = sc.tt('a', d, role, square=False)
-                return sc.method(a, 'matricize')
-            for ch, sc, res, exc in run_scen(scen, body):
-                if exc is not None:
-                    run.oblige('D4', (entry, scen), False)
-                    l2rules.raised_finding(run, 'C01', 'D4', repo, entry, scen, exc)
-                    continue
-                rows = [(l.resolve().kind, l.resolve().key, l.resolve().var) for l in res.legs[0]] if res.ndim >= 1 else []
-                cols = [(l.resolve().kind, l.resolve().key, l.resolve().var) for l in res.legs[1]] if res.ndim == 2 else []
-                good = rows == [('M', k, +1) for k in range(d)] and (cols == [('M', k, -1) for k in range(d)] if role == 'op' else res.ndim == 1)
-                run.oblige('D4', (entry, scen), good)
-                if not good:
-                    run.add(F(entry, 'D4 index order of matricize()', f'{scen}: result indices {res.legs}, expected (rows of sites 0..{d - 1} in C order) x (columns likewise)'))
+                def body(sc):
+                    kw = {}
+                    if uv:
+                        rows_ = [sc.mode(k) for k in range(d)]
+                        cols_ = [sc.mode(k, 'n') for k in range(d)]
+                        (cols_ if uv[0] == 'col' else rows_)[uv[1]] = 1
+                        kw = {'row': rows_, 'col': cols_}
+                    a = sc.tt('a', d, role, square=False, **kw)
+                    return sc.method(a, 'matricize')
+                for ch, sc, res, exc in run_scen(scen, body):
+                    if exc is not None:
+                        run.oblige('D4', (entry, scen), False)
+                        l2rules.raised_finding(run, 'C01', 'D4', repo, entry, scen, exc)
+                        continue
+                    rows = [(l.resolve().kind, l.resolve().key, l.resolve().var) for l in res.legs[0]] if res.ndim >= 1 else []
+                    cols = [(l.resolve().kind, l.resolve().key, l.resolve().var) for l in res.legs[1]] if res.ndim == 2 else []
+                    want_rows = [('M', k, +1) for k in range(d) if not (uv and uv == ('row', k))]
+                    want_cols = [('M', k, -1) for k in range(d) if not (uv and uv == ('col', k))]
+                    good = rows == want_rows and (cols == want_cols if role == 'op' else res.ndim == 1)
+                    run.oblige('D4', (entry, scen), good)
+                    if not good:
+                        run.add(F(entry, 'D4 index order of matricize()', f'{scen}: result indices {res.legs}, expected (rows of sites 0..{d - 1} in C order) x (columns likewise)'))
         scen = f'element(order={d})'
         entry = f'{TTM}.TT.element'
 
